@@ -33,6 +33,7 @@ fn main() {
             "C15" => c15::replay(&v["case"]),
             "C17" => c17::replay(&v["case"]),
             "C19" => c19::replay(&v["case"]),
+            "C20" => c20::replay(&v["case"]),
             _ => machinery_error(&format!("no replay for property {id}")),
         };
         match r {
@@ -71,6 +72,7 @@ fn main() {
         "C17" => c17::run(tier),
         "C18" => c18::run(tier),
         "C19" => c19::run(tier),
+        "C20" => c20::run(tier),
         other => machinery_error(&format!("unknown property {other}")),
     }
 }
